@@ -522,25 +522,32 @@ pub fn c17_decode_worker(tier: &str, k: usize, n: usize, ctx: &mut Ctx) {
     for field in 0..5 {
       for run in 1..=40 {
         for cont in ['g', '/', '9', 'h'] {
-          for term in ["A", "D", "/", ",", ";", "", "!A"] {
-            let mut s = String::new();
-            for _ in 0..field {
-              s.push('C');
+          // (a first digit with sign bit 0 makes the run a huge POSITIVE value; terminators with all
+          // value bits set; an earlier segment makes every running field non-zero)
+          for first in ["", "+", "8"] {
+            for term in ["A", "D", "/", ",", ";", "", "!A", "P", "f", "H"] {
+              for prev in ["", "CCCCC,"] {
+                let mut s = String::from(prev);
+                for _ in 0..field {
+                  s.push('C');
+                }
+                s.push_str(first);
+                for _ in 0..run {
+                  s.push(cont);
+                }
+                s.push_str(term);
+                s.push_str(",AAAA;C");
+                crate::set_current_desc(json!({"string": s}).to_string());
+                decode_no_panic(ctx, &s);
+                ctx.count("continuation_run_strings");
+              }
             }
-            for _ in 0..run {
-              s.push(cont);
-            }
-            s.push_str(term);
-            s.push_str(",AAAA;C");
-            crate::set_current_desc(json!({"string": s}).to_string());
-            decode_no_panic(ctx, &s);
-            ctx.count("continuation_run_strings");
           }
         }
       }
     }
     // huge deltas: values that overflow u32 when accumulated
-    for s in ["+/////H", "+/////H,+/////H", "AAAA,+/////HAAA", "D", "DDDD", "AADA", "AAAD,AAAD", "AAAAD", "/////////////B"] {
+    for s in ["+/////H", "+/////H,+/////H", "AAAA,+/////HAAA", "D", "DDDD", "AADA", "AAAD,AAAD", "AAAAD", "/////////////B", "AA+///////////PA", "CAAA,+///////////PAAA", "+///////////P", "+////////////P", "+///////////f,+///////////f"] {
       decode_no_panic(ctx, s);
     }
   }
